@@ -10,7 +10,8 @@ Step 2  a tiny driver binary is built against the feature selection and decodes 
         type must decode identically, every other number must be MsgNotSupported.
 Step 3  no_std probe: a #![no_std] staticlib with its own panic handler linked against the
         selection; any std in the dependency graph collides with it.
-quick: step 1 for all configurations, steps 2/3 for the edge/family subset; thorough: all.
+quick: steps 2 and 3 for every configuration (step 3 is the no-std build of each configuration);
+thorough: additionally step 1 for every configuration with and without serde.
 """
 import concurrent.futures, hashlib, json, os, re, shutil, subprocess, sys, time
 
@@ -70,7 +71,8 @@ std = ["rtcm-rs/std"]
 %s
 
 [profile.release]
-opt-level = 1
+opt-level = 0
+codegen-units = 16
 panic = "%s"
 debug = false
 incremental = false
@@ -113,15 +115,17 @@ def main(root, repo, tier, replay):
     cfgs = list(base_cfgs)
     if thorough:
         cfgs += [(f, True) for f, _ in base_cfgs]
+    check_cfgs = cfgs if thorough else []
     if replay:
         rj = json.load(open(replay))
         c = rj["replay"]["config"]
         cfgs = [(c["features"], c["serde"])]
+        check_cfgs = cfgs
         drive = [n for n in nums if "msg%d" % n in c["features"]]
         probe_cfgs = cfgs
     else:
-        drive = nums if thorough else sorted(set(EDGE + FAMILY) & set(nums))
-        probe_cfgs = base_cfgs if thorough else [([], False), (["all_msgs"], False)] + [(["msg%d" % n], False) for n in sorted(set(EDGE) & set(nums))]
+        drive = nums
+        probe_cfgs = base_cfgs
     workers = int(os.environ.get("VERIF_JOBS", "0")) or os.cpu_count() or 4
     workers = max(1, min(workers, 16))
     violations = []  # (key, what, replay-json)
@@ -149,7 +153,7 @@ def main(root, repo, tier, replay):
         return [check_cfg(it) for it in items]
 
     chains = {}
-    for i, cfg in enumerate(cfgs):
+    for i, cfg in enumerate(check_cfgs):
         chains.setdefault(i % workers, []).append((i, cfg))
     with concurrent.futures.ThreadPoolExecutor(max_workers=workers) as ex:
         futs = [ex.submit(worker_chain, w, items) for w, items in chains.items()]
@@ -303,7 +307,7 @@ def main(root, repo, tier, replay):
         "coverage": {
             "states": len(cfgs), "transitions": transitions, "traces_validated_against_impl": outcomes.get("single-feature-build-decodes-like-full-build", 0),
             "evaluations": transitions, "distinct_nontrivial": len(cfgs),
-            "rule": "the finite configuration space {empty, each msgNNNN alone, all_msgs} x {no std} (thorough: x {serde off, on}) is enumerated completely with cargo check; a driver built against single-feature selections decodes 4096 zero frames (one per message number), all testdata frames and ones/counter frames per supported number and is compared line by line with the all_msgs build; a #![no_std] staticlib with its own panic handler is linked against selections to expose any std in the graph. states = configurations; transitions = cargo builds / driver comparisons",
+            "rule": "the finite configuration space {empty, each msgNNNN alone, all_msgs} x {no std} is enumerated completely: each configuration is built without std as a #![no_std] staticlib with its own panic handler (any std in the graph collides with it); thorough: additionally cargo check of every configuration with serde off and on; a driver built against every single-feature selection decodes 4096 zero frames (one per message number), all testdata frames and ones/counter frames per supported number and is compared line by line with the all_msgs build. states = configurations; transitions = cargo builds / driver comparisons",
             "exhaustive": True,
             "bounds": {"configurations": len(cfgs), "driver_configurations": len(drive), "nostd_probe_configurations": len(probe_cfgs), "message_features": len(nums)},
             "outcomes": outcomes, "distinct_outcomes": len(outcomes),
